@@ -563,10 +563,93 @@ def oracle_positional(case, problem, obs, rawV, rawF, bcV, bcF, tV, tF, metrics,
                 check_rows(out, exp2, max(scale, 100.0), "calculate_future_trend", f"{label}, {tt}", problem)
 
 
+SEASON = {12: "Winter", 1: "Winter", 2: "Winter", 3: "Spring", 4: "Spring", 5: "Spring", 6: "Summer", 7: "Summer", 8: "Summer",
+          9: "Autumn", 10: "Autumn", 11: "Autumn"}
+
+
+def oracle_time_scoped(case, problem, obs, rawV, rawF, bcV, bcF, tV, tF, scale):
+    """a metric whose threshold depends on the season: every probability must be taken with the time axis of ITS data set
+    (validation data with time_validate, future data with time_future; obs / cm with their own times)"""
+    from ibicus.evaluate import marginal, multivariate, trend
+    from ibicus.evaluate.metrics import ThresholdMetric
+
+    lo, hi = float(np.quantile(rawV, 0.2)), float(np.quantile(rawV, 0.8))
+    thr = {"Winter": round(lo * 8) / 8, "Spring": round((lo + hi) * 4) / 8, "Summer": round(hi * 8) / 8, "Autumn": round((lo + hi) * 4) / 8 + 0.125}
+    m = ThresholdMetric(threshold_value=dict(thr), threshold_type="higher", threshold_scope="season", name="seasonal")
+
+    def inst(x, t):
+        th = np.array([thr[SEASON[d.month]] for d in t])[:, None, None]
+        return x > th
+
+    def prob(x, t):
+        return inst(x, t).sum(axis=0) / x.shape[0]
+
+    def tb(tt, v, f_):
+        rV, rF, bV, bF = prob(rawV, tV), prob(rawF, tF), prob(v, tV), prob(f_, tF)
+        with np.errstate(all="ignore"):
+            if tt == "additive":
+                bt_, rt = bF - bV, rF - rV
+            else:
+                if np.any(np.abs(bV) < 1e-6) or np.any(np.abs(rV) < 1e-6):
+                    return None
+                bt_, rt = bF / bV, rF / rV
+            if np.any(np.abs(rt) < 1e-6):
+                return None
+            return 100 * (bt_ - rt) / rt
+
+    rel = {"relation": "time_scoped_metric"}
+    for tt in ("additive", "multiplicative"):
+        ref = tb(tt, bcV, bcF)
+        if ref is not None:
+            out = call(trend.calculate_future_trend_bias, raw_validate=rawV, raw_future=rawF, statistics=[], trend_type=tt, metrics=[m],
+                       time_validate=tV, time_future=tF, bc=[bcV, bcF])
+            why = differs(out if out[0] == "raise" else ("ok", row(out[1], "bc", "seasonal")), ref, 100.0)
+            if why:
+                problem("calculate_future_trend_bias", f"{tt} trend bias of a season-scoped metric: {why}", {**rel, "tt": tt})
+        bV, bF = prob(bcV, tV), prob(bcF, tF)
+        ref = bF - bV if tt == "additive" else (None if np.any(np.abs(bV) < 1e-6) else bF / bV)
+        if ref is not None:
+            out = call(trend.calculate_future_trend, statistics=[], trend_type=tt, metrics=[m], time_validate=tV, time_future=tF, bc=[bcV, bcF])
+            why = differs(out if out[0] == "raise" else ("ok", row(out[1], "bc", "seasonal")), ref, 1.0)
+            if why:
+                problem("calculate_future_trend", f"{tt} trend of a season-scoped metric: {why}", {**rel, "tt": tt})
+    # marginal bias with different time axes for obs and cm (future data as the 'model')
+    pO, pC = prob(obs, tV), prob(rawF, tF)
+    out = call(marginal.calculate_marginal_bias, obs=[obs, tV], statistics=[], metrics=[m], percentage_or_absolute="absolute", fut=[rawF, tF])
+    why = differs(out if out[0] == "raise" else ("ok", row(out[1], "fut", "seasonal")), 365 * pC - 365 * pO, 365.0)
+    if why:
+        problem("calculate_marginal_bias", f"absolute bias of a season-scoped metric: {why}", rel)
+    if not np.any(np.abs(pO) < 1e-6):
+        out = call(marginal.calculate_marginal_bias, obs=[obs, tV], statistics=[], metrics=[m], percentage_or_absolute="percentage", fut=[rawF, tF])
+        why = differs(out if out[0] == "raise" else ("ok", row(out[1], "fut", "seasonal")), 100 * (pC - pO) / pO, 100.0)
+        if why:
+            problem("calculate_marginal_bias", f"percentage bias of a season-scoped metric: {why}", rel)
+    # days per year
+    def days(x, t):
+        yrs = np.array([d.year for d in t])
+        i_ = inst(x, t)
+        return np.mean([i_[yrs == y].sum(axis=0) for y in np.unique(yrs)], axis=0)
+
+    out = call(marginal.calculate_bias_days_metrics, obs_data=[obs, tV], metrics=[m], fut=[rawF, tF])
+    for col, ref in (("CM", days(rawF, tF)), ("Obs", days(obs, tV)), ("Bias", days(rawF, tF) - days(obs, tV))):
+        why = differs(out if out[0] == "raise" else ("ok", row(out[1], "fut", "seasonal", col)), ref, 10.0)
+        if why:
+            problem("calculate_bias_days_metrics", f"{col} of a season-scoped metric: {why}", rel)
+    # conditional exceedance with the time axis as third list element
+    a, b = inst(rawV, tV), inst(bcV, tV)
+    if np.all(b.sum(axis=0) > 0):
+        out = call(multivariate.calculate_conditional_joint_threshold_exceedance, m, m, d=[rawV, bcV, tV])
+        got = out if out[0] == "raise" else ("ok", np.asarray(out[1]["Conditional exceedance probability"].iloc[0], dtype=float))
+        why = differs(got, 100.0 * (a & b).sum(axis=0) / b.sum(axis=0), 100.0)
+        if why:
+            problem("calculate_conditional_joint_threshold_exceedance", f"season-scoped metric: {why}", rel)
+
+
 def oracle_relations(rng, case, data, problem, obs, rawV, rawF, bcV, bcF, tV, tF, metrics, stats, scale):
     from ibicus.evaluate import correlation, marginal, multivariate, trend
 
     oracle_positional(case, problem, obs, rawV, rawF, bcV, bcF, tV, tF, metrics, stats, scale)
+    oracle_time_scoped(case, problem, obs, rawV, rawF, bcV, bcF, tV, tF, scale)
 
     mobjs = [m[0] for m in metrics]
     I, J = obs.shape[1:]
@@ -622,6 +705,16 @@ def oracle_relations(rng, case, data, problem, obs, rawV, rawF, bcV, bcF, tV, tF
             out = call(multivariate._calculate_chi, mo, mo, rawV, rawV.copy())
             if out[0] == "raise" or not np.all(out[1] == 1.0):
                 problem("_calculate_chi", f"chi({mtxt}, {mtxt}) is not 1", {"relation": "chi_self"})
+            # the very same metric object and the very same array object in both slots
+            keep = rawV.copy()
+            out = call(multivariate.calculate_conditional_joint_threshold_exceedance, mo, mo, d=[rawV, rawV, tV])
+            if out[0] == "raise" or not np.all(np.asarray(out[1]["Conditional exceedance probability"].iloc[0], dtype=float) == 100.0):
+                problem("calculate_conditional_joint_threshold_exceedance",
+                        f"P({mtxt} | {mtxt}) is not 100 % when the same metric object and the same array object are passed in both slots: "
+                        f"{out[1] if out[0] == 'raise' else np.asarray(out[1]['Conditional exceedance probability'].iloc[0]).tolist()}",
+                        {"relation": "chi_self"})
+            if not np.array_equal(keep, rawV):
+                problem("calculate_conditional_joint_threshold_exceedance", "the data set was modified", {"relation": "chi_self"})
 
     # (4) independence of the grid shape: every column alone (1x1) and inside the grid, bitwise
     #     (guard for the multiplicative trends: no location trips a zero guard, i.e. the whole-grid call returned)
